@@ -7,6 +7,14 @@
               nudge_region run with that scripted solver compared with the dumped END record;
      - chk:   the verified region checker nudge_region_ok on the dumped final data;
      - vpsc:  nudge_region with the VPSC model of C01 as the solver, compared with the END record to 1e-9;
+     - rel:   the extracted relations overlaps_with / should_align_with / can_align_with (NudgeRelModel) recomputed from
+              the dumped segment records for every ordered pair (curr, prev) and compared with the REL record (exact);
+              without hook H1b's SEGX records the pairs that depend on sBend/zBend or on checkpoint positions are
+              skipped (rel=partial);
+   for every pass (hook H1b: ALLSEG / AROUTE / ASEG records) one line "G ..." with
+     - grp:   the regions the extracted seg_groups forms from the whole segment list vs the regions the code dumped;
+     - cpl:   the checkpoint-limit oracle cp_limit_ok for every shiftable middle segment and every checkpoint (CPS records
+              written by the check) lying on one of its two adjoining route segments;
    and for every scene one line with the verdicts of the verified scene checker components.
    Z, Q, nat stay the Coq datatypes. *)
 open C10_model
@@ -48,6 +56,8 @@ let z_of_int (n : int) : z =
 let int_of_z (x : z) : int = int_of_float (float_of_q { qnum = x; qden = XH })
 let q_of_int n = { qnum = z_of_int n; qden = XH }
 let qeq a b = qeq_bool a b
+let qlt a b = (match qcompare a b with Lt -> true | _ -> false)
+let qle a b = (match qcompare a b with Gt -> false | _ -> true)
 let qclose a b = abs_float (float_of_q a -. float_of_q b) <= 1e-9 *. (max 1. (abs_float (float_of_q a)))
 let b_of s = s <> "0"
 let tol6 = { qnum = Zpos XH; qden = (match pos_of_hex "f4240" with Some p -> p | None -> XH) }   (* 1e-6 *)
@@ -56,7 +66,8 @@ let tol6 = { qnum = Zpos XH; qden = (match pos_of_hex "f4240" with Some p -> p |
 type iter = { mutable i_sep : q; mutable i_x : q list; mutable i_unsat : bool list; mutable i_sat : bool option;
               mutable i_rg : (int * int) list option; mutable i_step : (q * bool * bool) option;
               mutable i_cons : con list option; mutable i_rg2 : (int * int) list option }
-type dreg = { d_unify : bool; d_base : q; d_nfs : bool; d_nsp : bool; d_n : int;
+type dreg = { d_dim : int; d_unify : bool; d_base : q; d_nfs : bool; d_nsp : bool; d_n : int; d_fspp : q; d_nc : bool option;
+              mutable d_segx : (int * (bool * bool * int list * (q * q) list)) list;
               mutable d_segs : seg list; mutable d_segvar : (int * nvar) list;
               mutable d_rel : (int * int * rel) list;
               mutable d_vars : nvar list option; mutable d_cons : con list option; mutable d_gapcs : int list option;
@@ -134,6 +145,31 @@ let do_region (idx : int) (d : dreg) =
          let cv = create_var d.d_nfs d.d_unify s in
          if mv <> vi || not (nv_close cv nv) then (ok := false; note (Printf.sprintf "seg %d var" i))) d.d_segvar;
      !ok) in
+  (* --- the relations recomputed by the model *)
+  let has_x = d.d_segx <> [] in
+  let rel_skipped = ref 0 in
+  let rel_ok = ref true in
+  (match d.d_nc with
+   | None -> rel_ok := false; note "no nc option"
+   | Some nc ->
+       let segs = Array.of_list d.d_segs in
+       if has_x then Array.iteri (fun i sg -> if not (seg_wf sg) then (rel_ok := false; note (Printf.sprintf "seg %d not wf" i))) segs;
+       List.iter (fun (i, j, (dr : rel)) ->
+           if i < Array.length segs && j < Array.length segs then begin
+             let s = segs.(i) and t = segs.(j) in
+             let m = rel_model nc d.d_fspp dr.r_sh s t in
+             (* which components are determined by H1's SEG record alone *)
+             let touching = not (qlt s.slo t.shi && qlt t.slo s.shi) && (qeq s.slo t.shi || qeq t.slo s.shi) in
+             let ov_det = has_x || not (touching && s.szigzag && t.szigzag) in
+             let sa_det = has_x || (ov_det && not (s.scp <> t.scp)) in
+             if not ov_det then incr rel_skipped;
+             if not sa_det then incr rel_skipped;
+             let bad = (ov_det && m.r_ov <> dr.r_ov) || (sa_det && m.r_sa <> dr.r_sa) || m.r_ca <> dr.r_ca in
+             if bad then begin
+               rel_ok := false;
+               note (Printf.sprintf "rel %d %d model %b/%b/%b code %b/%b/%b" i j m.r_ov m.r_sa m.r_ca dr.r_ov dr.r_sa dr.r_ca)
+             end
+           end) d.d_rel);
   (* --- loop trace with the dumped solver results *)
   let iters = Array.of_list d.d_iters in
   let scripted (k : nat) (_ : nvar list) (_ : con list) (fl : bool list) : q list * bool list =
@@ -241,9 +277,82 @@ let do_region (idx : int) (d : dreg) =
       | NFuel, _ -> "fuel"
       | _ -> "na"
     end in
-  Printf.printf "R %d gen=%s trace=%s chk=%s vpsc=%s assert=%s iters=%d notes=%s\n" idx
+  Printf.printf "R %d gen=%s trace=%s chk=%s vpsc=%s assert=%s iters=%d rel=%s notes=%s\n" idx
     (if gen_ok then (if !approx then "approx" else "ok") else "DIFF") (if !trace_ok then "ok" else "DIFF") chk vp
-    !model_assert (Array.length iters) (Buffer.contents notes)
+    !model_assert (Array.length iters) (if not !rel_ok then "DIFF" else if !rel_skipped > 0 then "partial" else "ok")
+    (Buffer.contents notes)
+
+(* ------------------------------------------------------------------ one pass (hook H1b) *)
+type dpass = { p_dim : int; p_unify : bool; p_nc : bool; p_fspp : q; p_nfs : bool option ref;
+               mutable p_routes : (int * (q * q) array) list;
+               mutable p_segs : (seg * int list) list;           (* ASEG records in list order, with their indexes *)
+               mutable p_regions : (int * int) list list;        (* (conn, index) sets of the dumped regions *)
+               mutable p_complete : bool }
+
+let keyset (l : (int * int) list) = List.sort_uniq compare l
+
+let do_pass (idx : int) (p : dpass) (cps : (int * (q * q) list) list) =
+  let notes = Buffer.create 64 in
+  let note s = if Buffer.length notes < 600 then (Buffer.add_string notes s; Buffer.add_char notes ';') in
+  let segs = List.rev p.p_segs in
+  let indexed = List.mapi (fun i (s, _) -> (nat_of_int i, s)) segs in
+  let idx_of = Array.of_list (List.map snd segs) in
+  (* --- region collection *)
+  let grp =
+    match seg_groups p.p_nc p.p_fspp indexed with
+    | None -> note "model out of fuel"; "DIFF"
+    | Some gs ->
+        let nfs = (match !(p.p_nfs) with Some b -> b | None -> false) in
+        let keys g = keyset (List.concat (List.map (fun (i, s) -> let c = int_of_z s.sconn in
+                                                      List.map (fun k -> (c, k)) idx_of.(int_of_nat i)) g)) in
+        (* linesort merges segments that shouldAlignWith each other when final segments are nudged: the merged region may
+           shrink to one immovable segment and be skipped *)
+        let may_vanish g = group_skipped p.p_unify g ||
+                           (nfs && not p.p_unify &&
+                            List.exists (fun (_, a) -> List.exists (fun (_, b) -> a != b && should_align_with p.p_nc p.p_fspp a b) g) g) in
+        let rec walk gs rs k =
+          match gs, rs with
+          | [], [] -> true
+          | [], _ :: _ -> note (Printf.sprintf "code formed %d more region(s) than the model" (List.length rs)); false
+          | g :: gt, r :: rt when keys g = keyset r -> walk gt rt (k + 1)
+          | g :: gt, _ when may_vanish g -> walk gt rs (k + 1)
+          | g :: _, r :: _ ->
+              note (Printf.sprintf "group %d: model {%s} code {%s}" k
+                      (String.concat " " (List.map (fun (c, i) -> Printf.sprintf "%d.%d" c i) (keys g)))
+                      (String.concat " " (List.map (fun (c, i) -> Printf.sprintf "%d.%d" c i) (keyset r))));
+              false
+          | g :: _, [] ->
+              if p.p_complete then
+                (note (Printf.sprintf "group %d: model {%s} not formed by the code" k
+                         (String.concat " " (List.map (fun (c, i) -> Printf.sprintf "%d.%d" c i) (keys g)))); false)
+              else true in
+        if walk gs (List.rev p.p_regions) 0 then "ok" else "DIFF" in
+  (* --- checkpoint limits of shiftable middle segments *)
+  let cpl_bad = ref [] in
+  let coord (pt : q * q) dim = if dim = 0 then fst pt else snd pt in
+  let alt = 1 - p.p_dim in
+  List.iteri (fun k (s, idxs) ->
+      if not s.sfixed && not s.sfinal then
+        match idxs, List.assoc_opt (int_of_z s.sconn) p.p_routes, List.assoc_opt (int_of_z s.sconn) cps with
+        | [a; b], Some route, Some cpl when abs (a - b) = 1 ->
+            let i0 = min a b and i1 = max a b in
+            let adj near far =                      (* the adjoining route segment from vertex `near` (on s) to `far` *)
+              if far >= 0 && far < Array.length route then begin
+                let pn = route.(near) and pf = route.(far) in
+                if qeq (coord pn alt) (coord pf alt) then
+                  List.iter (fun cp ->
+                      let c = coord cp p.p_dim in
+                      let lo = if qlt (coord pn p.p_dim) (coord pf p.p_dim) then coord pn p.p_dim else coord pf p.p_dim in
+                      let hi = if qlt (coord pn p.p_dim) (coord pf p.p_dim) then coord pf p.p_dim else coord pn p.p_dim in
+                      if qeq (coord cp alt) (coord pn alt) && qle lo c && qle c hi then
+                        if not (cp_limit_ok s.spos s.smin s.smax c) then
+                          cpl_bad := Printf.sprintf "%d:%d:%s:%g,%g" k (int_of_z s.sconn)
+                              (if qeq c s.spos then "corner" else "inner") (float_of_q (fst cp)) (float_of_q (snd cp)) :: !cpl_bad) cpl
+              end in
+            adj i0 (i0 - 1); adj i1 (i1 + 1)
+        | _ -> ()) segs;
+  Printf.printf "G %d dim=%d unify=%d grp=%s cpl=[%s] notes=%s\n" idx p.p_dim (if p.p_unify then 1 else 0) grp
+    (String.concat "," (List.rev !cpl_bad)) (Buffer.contents notes)
 
 (* ------------------------------------------------------------------ scenes *)
 let parse_pts (t : string list) : pt list * string list =
@@ -275,27 +384,89 @@ let () =
   let sc_dist = ref tol6 in
   let sc_boxes = ref [] in
   let sc_conns = ref [] in
+  let curp : dpass option ref = ref None in
+  let pidx = ref 0 in
+  let cps : (int * (q * q) list) list ref = ref [] in
   let flush_region () = match !cur with
     | Some d -> d.d_segs <- List.rev d.d_segs; d.d_segvar <- List.rev d.d_segvar; d.d_iters <- List.rev d.d_iters;
+        (* merge hook H1b's SEGX fields into the segment records *)
+        if d.d_segx <> [] then
+          d.d_segs <- List.mapi (fun i (s : seg) ->
+              match List.assoc_opt i d.d_segx with
+              | Some (sb, zb, _, cpl) ->
+                  { s with ssbend = sb; szbend = zb; scpa = List.map (fun (x, y) -> if d.d_dim = 0 then y else x) cpl }
+              | None -> s) d.d_segs;
+        (match !curp with
+         | Some p when d.d_segx <> [] ->
+             p.p_nfs := Some d.d_nfs;
+             p.p_regions <- (List.concat (List.mapi (fun i (s : seg) ->
+                 match List.assoc_opt i d.d_segx with
+                 | Some (_, _, idxs, _) -> List.map (fun k -> (int_of_z s.sconn, k)) idxs
+                 | None -> []) d.d_segs)) :: p.p_regions
+         | _ -> ());
         (try do_region !ridx d with e -> Printf.printf "R %d ERROR %s\n" !ridx (Printexc.to_string e));
         incr ridx; cur := None
     | None -> () in
+  let flush_pass complete = match !curp with
+    | Some p -> p.p_complete <- complete;
+        (try do_pass !pidx p !cps with e -> Printf.printf "G %d ERROR %s\n" !pidx (Printexc.to_string e));
+        incr pidx; curp := None
+    | None -> () in
+  let parse_x (t : string list) =      (* sBend zBend nidx idx.. ncp x y .. *)
+    match t with
+    | sb :: zb :: n :: rest ->
+        let n = int_of_string n in
+        let idxs = List.map int_of_string (take n rest) in
+        (match drop n rest with
+         | m :: r2 ->
+             let m = int_of_string m in
+             let rec go k l = if k = 0 then [] else match l with
+               | x :: y :: r -> (q_of_string x, q_of_string y) :: go (k - 1) r | _ -> failwith "SEGX cps" in
+             (b_of sb, b_of zb, idxs, go m r2)
+         | [] -> (b_of sb, b_of zb, idxs, []))
+    | _ -> failwith "SEGX" in
   (try
      while true do
        let line = input_line stdin in
        let t = List.filter (fun s -> s <> "") (String.split_on_char ' ' line) in
        match t with
        | [] -> ()
-       | "REGION" :: _dim :: u :: base :: nfs :: nsp :: n :: _ ->
+       | "CPS" :: conn :: rest ->
+           let (pl, _) = parse_pts rest in
+           cps := (int_of_string conn, List.map (fun (p : pt) -> (p.px, p.py)) pl) :: !cps
+       | "ALLSEG" :: dim :: u :: _n :: nc :: fspp :: _ ->
+           flush_region (); flush_pass true;
+           curp := Some { p_dim = int_of_string dim; p_unify = b_of u; p_nc = b_of nc; p_fspp = q_of_string fspp; p_nfs = ref None;
+                          p_routes = []; p_segs = []; p_regions = []; p_complete = true }
+       | "AROUTE" :: conn :: rest ->
+           (match !curp with Some p ->
+              let (pl, _) = parse_pts rest in
+              p.p_routes <- (int_of_string conn, Array.of_list (List.map (fun (q : pt) -> (q.px, q.py)) pl)) :: p.p_routes
+            | None -> ())
+       | "ASEG" :: _k :: conn :: pos :: fx :: fin :: eis :: cp :: single :: zz :: mn :: mx :: lo :: hi :: rest ->
+           (match !curp with Some p ->
+              let (sb, zb, idxs, cpl) = parse_x rest in
+              p.p_segs <- ({ sconn = z_of_int (int_of_string conn); spos = q_of_string pos; sfixed = b_of fx; sfinal = b_of fin;
+                             sendsInShape = b_of eis; scp = b_of cp; ssingle = b_of single; szigzag = b_of zz;
+                             smin = q_of_string mn; smax = q_of_string mx; slo = q_of_string lo; shi = q_of_string hi;
+                             ssbend = sb; szbend = zb;
+                             scpa = List.map (fun (x, y) -> if p.p_dim = 0 then y else x) cpl }, idxs) :: p.p_segs
+            | None -> ())
+       | "SEGX" :: k :: rest ->
+           (match !cur with Some d -> d.d_segx <- (int_of_string k, parse_x rest) :: d.d_segx | None -> ())
+       | "REGION" :: dim :: u :: base :: nfs :: nsp :: n :: fspp :: more ->
            flush_region ();
-           cur := Some { d_unify = b_of u; d_base = q_of_string base; d_nfs = b_of nfs; d_nsp = b_of nsp; d_n = int_of_string n;
+           cur := Some { d_dim = int_of_string dim; d_unify = b_of u; d_base = q_of_string base; d_nfs = b_of nfs; d_nsp = b_of nsp;
+                         d_n = int_of_string n; d_fspp = q_of_string fspp;
+                         d_nc = (match more with nc :: _ -> Some (b_of nc) | [] -> None); d_segx = [];
                          d_segs = []; d_segvar = []; d_rel = []; d_vars = None; d_cons = None; d_gapcs = None; d_pot = None;
                          d_iters = []; d_end = None }
        | "SEG" :: _k :: conn :: pos :: fx :: fin :: eis :: cp :: single :: zz :: mn :: mx :: var :: des :: wt :: id :: lo :: hi :: _ ->
            (match !cur with Some d ->
               d.d_segs <- { sconn = z_of_int (int_of_string conn); spos = q_of_string pos; sfixed = b_of fx; sfinal = b_of fin;
                             sendsInShape = b_of eis; scp = b_of cp; ssingle = b_of single; szigzag = b_of zz;
-                            smin = q_of_string mn; smax = q_of_string mx; slo = q_of_string lo; shi = q_of_string hi } :: d.d_segs;
+                            smin = q_of_string mn; smax = q_of_string mx; slo = q_of_string lo; shi = q_of_string hi;
+                            ssbend = false; szbend = false; scpa = [] } :: d.d_segs;
               d.d_segvar <- (int_of_string var, { vid = z_of_int (int_of_string id); vdes = q_of_string des; vwt = q_of_string wt }) :: d.d_segvar
             | None -> ())
        | "REL" :: i :: j :: ov :: sa :: ca :: sh :: _ ->
@@ -334,7 +505,8 @@ let () =
        | "END" :: s :: sep :: n :: rest ->
            (match !cur with Some d -> d.d_end <- Some (b_of s, q_of_string sep, List.map q_of_string (take (int_of_string n) rest)) | None -> ());
            flush_region ()
-       | "ENDREGIONS" :: _ -> flush_region ()
+       | "ENDREGIONS" :: c :: _ -> flush_region (); flush_pass (c <> "0"); cps := []
+       | "ENDREGIONS" :: _ -> flush_region (); flush_pass true; cps := []
        | "SCENE" :: tol :: dist :: _ -> flush_region (); sc_tol := q_of_string tol; sc_dist := q_of_string dist; sc_boxes := []; sc_conns := []
        | "BOX" :: id :: x0 :: y0 :: x1 :: y1 :: _ ->
            sc_boxes := { b_id = z_of_int (int_of_string id); bx0 = q_of_string x0; by0 = q_of_string y0; bx1 = q_of_string x1; by1 = q_of_string y1 } :: !sc_boxes
